@@ -29,6 +29,24 @@ def strategy(draw, kinds, max_steps=8):
         c["steps"] = draw(st.integers(2, 3))
         c["removal"] = draw(gen.uniform(0.3, 0.97))
         c["coarse"] = True
+    if c["kind"].endswith("-iso") and draw(st.integers(0, 7)) == 0:
+        # far outside the validity range of the vapour-pressure equations (around the Antoine pole of a component): whatever the
+        # model makes of it, it must raise or report finite states
+        c["mixture"] = {"builtin": draw(st.sampled_from(gen.BUILTIN_MIXTURES))}
+        antoine = {"H2O": (7.20389, -1733.926, -39.485), "MeOH": (7.2209903, -1590.15535, -32.77001), "EtOH": (7.24677, -1598.673, -46.424)}
+        a_, b_, c_ = antoine[c["mixture"]["builtin"].split("_")[0]]
+        if draw(st.booleans()):
+            # just below the pole where log10(Psat) is 290..308.3: the pressure (and the flux) is finite but close to the largest
+            # double, a product with it overflows
+            c["T"] = -c_ + b_ / (draw(gen.uniform(300.0, 308.3)) - a_)
+        else:
+            c["T"] = -c_ - draw(gen.loguniform(1e-3, 8.0))
+        c["perm"] = draw(st.sampled_from([{"mode": "vacuum", "T": None, "p": None}, {"mode": "pressure", "T": None, "p": 0.0}]))
+        c["membrane"] = gen.simple_membrane(0.01, 0.02, t=c["T"], ea1=0.0, ea2=0.0)
+        c["steps"] = draw(st.integers(1, 3))
+        c["degenerate"] = True
+        c["force_dt"] = draw(st.sampled_from([1.0, 1.0, 0.1, None]))  # a plain step length (not scaled to the astronomically large flux)
+        c["area"], c["amount"] = 1.0, 1.0
     roll = draw(st.integers(0, 19))
     if c["kind"].endswith("noniso") and roll < 2:
         # a temperature programme that runs below 0 K within the requested steps (must raise, whatever state it lands on)
@@ -87,6 +105,8 @@ def check(case):
                 if not case.get("degenerate"):
                     raise
                 dt = 1.0  # zero total flux: no flux scale exists, any step length will do
+            if case.get("force_dt"):
+                dt = case["force_dt"]
             model = procs.run(case, s, dt)
     except EvaluationCap:
         raise Discard("evaluation cap reached (termination is C10's subject)")
